@@ -1,13 +1,15 @@
-(* Exhaustive finite facts about the float expressions aw-core uses for millisecond
-   rounding: for every microsecond field 0 <= us < 10^6 the float computation
-   int(us / 1000) (and the expressions of Bucket.get built on it) equals the integer
-   computation.  Each is a proof: the kernel evaluates the boolean check on all 10^6
-   values (ten chunks of 10^5; [vm_cast_no_check] leaves the evaluation to the kernel's vm
-   at Qed, so each chunk is evaluated once) and the result is lifted to the quantified
-   statement by [check_upto_spec].  The other expressions (models.py ms floor, Bucket.get
-   window start / end) are derived from it by unfolding.  No axiom is used. *)
-From Coq Require Import ZArith Bool List Lia PrimFloat.
-From AwVerif Require Import Base.Prelude Model.PyFloat.
+(* Finite facts about the float expressions aw-core uses for millisecond rounding: for
+   every microsecond field 0 <= us < 10^6 the float computation int(us / 1000) (and the
+   expressions of Bucket.get built on it) equals the integer computation.
+   [int_div_1000_exact] is proved through Flocq (Proofs/PyFloatSpec.v): the correctly
+   rounded quotient of us = 1000 k + r by 1000 lies in [k, k + 0.999 + 2^-44], so its
+   truncation is k.  The same statement is proved a second time, axiom-free, by exhaustive
+   kernel evaluation over the 10^6 values in Proofs/PyFloatExhaustive.v.
+   Also here: [check_upto] / [check_upto_spec], the helper that lifts a kernel-evaluated
+   bounded check to a quantified statement. *)
+From Coq Require Import ZArith Reals Bool List Lia Lra Floats.
+From Flocq Require Import Core IEEE754.BinarySingleNaN IEEE754.PrimFloat.
+From AwVerif Require Import Base.Prelude Model.PyFloat Proofs.PyFloatSpec.
 Open Scope Z_scope.
 
 Fixpoint check_upto (f : Z -> bool) (k : nat) (z : Z) : bool :=
@@ -39,48 +41,6 @@ Proof.
   apply andb_prop in H. destruct H as [H1 H2]. apply Z.eqb_eq in H1, H2. now subst.
 Qed.
 
-Definition ok_us (us : Z) : bool :=
-  res_Z_is (bind (fdiv_int_int us 1000) int_of_float) (us / 1000).
-
-Definition chunk : nat := Z.to_nat 100000.
-
-Lemma ok_chunk_0 : check_upto ok_us chunk 0 = true.
-Proof. vm_cast_no_check (eq_refl true). Qed.
-Lemma ok_chunk_1 : check_upto ok_us chunk 100000 = true.
-Proof. vm_cast_no_check (eq_refl true). Qed.
-Lemma ok_chunk_2 : check_upto ok_us chunk 200000 = true.
-Proof. vm_cast_no_check (eq_refl true). Qed.
-Lemma ok_chunk_3 : check_upto ok_us chunk 300000 = true.
-Proof. vm_cast_no_check (eq_refl true). Qed.
-Lemma ok_chunk_4 : check_upto ok_us chunk 400000 = true.
-Proof. vm_cast_no_check (eq_refl true). Qed.
-Lemma ok_chunk_5 : check_upto ok_us chunk 500000 = true.
-Proof. vm_cast_no_check (eq_refl true). Qed.
-Lemma ok_chunk_6 : check_upto ok_us chunk 600000 = true.
-Proof. vm_cast_no_check (eq_refl true). Qed.
-Lemma ok_chunk_7 : check_upto ok_us chunk 700000 = true.
-Proof. vm_cast_no_check (eq_refl true). Qed.
-Lemma ok_chunk_8 : check_upto ok_us chunk 800000 = true.
-Proof. vm_cast_no_check (eq_refl true). Qed.
-Lemma ok_chunk_9 : check_upto ok_us chunk 900000 = true.
-Proof. vm_cast_no_check (eq_refl true). Qed.
-
-Lemma ok_us_all : forall us, 0 <= us < 1000000 -> ok_us us = true.
-Proof.
-  intros us H.
-  assert (Hc : Z.of_nat chunk = 100000) by (unfold chunk; rewrite Z2Nat.id; lia).
-  destruct (Z_lt_le_dec us 100000); [apply (check_upto_spec _ _ _ ok_chunk_0); lia|].
-  destruct (Z_lt_le_dec us 200000); [apply (check_upto_spec _ _ _ ok_chunk_1); lia|].
-  destruct (Z_lt_le_dec us 300000); [apply (check_upto_spec _ _ _ ok_chunk_2); lia|].
-  destruct (Z_lt_le_dec us 400000); [apply (check_upto_spec _ _ _ ok_chunk_3); lia|].
-  destruct (Z_lt_le_dec us 500000); [apply (check_upto_spec _ _ _ ok_chunk_4); lia|].
-  destruct (Z_lt_le_dec us 600000); [apply (check_upto_spec _ _ _ ok_chunk_5); lia|].
-  destruct (Z_lt_le_dec us 700000); [apply (check_upto_spec _ _ _ ok_chunk_6); lia|].
-  destruct (Z_lt_le_dec us 800000); [apply (check_upto_spec _ _ _ ok_chunk_7); lia|].
-  destruct (Z_lt_le_dec us 900000); [apply (check_upto_spec _ _ _ ok_chunk_8); lia|].
-  apply (check_upto_spec _ _ _ ok_chunk_9); lia.
-Qed.
-
 Lemma bind_assoc : forall {A B C} (r : res A) (f : A -> res B) (g : B -> res C),
   bind r (fun a => bind (f a) g) = bind (bind r f) g.
 Proof. intros A B C [a|c|] f g; reflexivity. Qed.
@@ -88,7 +48,40 @@ Proof. intros A B C [a|c|] f g; reflexivity. Qed.
 (* int(us / 1000) == us // 1000 for every microsecond field *)
 Theorem int_div_1000_exact : forall us, 0 <= us < 1000000 ->
   bind (fdiv_int_int us 1000) int_of_float = Ok (us / 1000).
-Proof. intros us H. apply res_Z_is_eq. exact (ok_us_all us H). Qed.
+Proof.
+  intros us H. unfold fdiv_int_int. change (1000 =? 0) with false. cbv iota.
+  assert (T : (Z.abs us <=? two53) && (Z.abs 1000 <=? two53) = true).
+  { apply andb_true_iff. split; apply Z.leb_le; unfold two53; simpl Z.abs; lia. }
+  rewrite T. cbn [bind].
+  destruct (of_Z_spec us ltac:(lia)) as [Fu Vu].
+  destruct (of_Z_spec 1000 ltac:(simpl; lia)) as [Fk Vk].
+  set (k := us / 1000). set (x := (IZR us / 1000)%R).
+  pose proof (Z.div_mod us 1000 ltac:(lia)) as DM.
+  pose proof (Z.mod_pos_bound us 1000 ltac:(lia)) as MB. fold k in DM.
+  assert (Hk : 0 <= k < 1000) by (unfold k; split; [apply Z.div_pos; lia | apply Z.div_lt_upper_bound; lia]).
+  assert (X1 : (IZR k <= x)%R).
+  { unfold x. assert (IZR (1000 * k) <= IZR us)%R by (apply IZR_le; lia). rewrite mult_IZR in H0. lra. }
+  assert (X2 : (x <= IZR k + 999 / 1000)%R).
+  { unfold x. assert (IZR us <= IZR (1000 * k + 999))%R by (apply IZR_le; lia).
+    rewrite plus_IZR, mult_IZR in H0. lra. }
+  assert (K0 : (0 <= IZR k)%R) by (apply IZR_le; lia).
+  assert (K1 : (IZR k <= 999)%R) by (apply IZR_le; lia).
+  assert (Xb : (Rabs x < bpow radix2 10)%R).
+  { rewrite Rabs_pos_eq by lra. change (bpow radix2 10) with 1024%R. lra. }
+  pose proof (RN_err x 10 ltac:(lia) Xb) as E. change (10 - 54) with (-44) in E.
+  assert (M : (bpow radix2 (-44) <= 1 / 2000)%R).
+  { change (bpow radix2 (-44)) with (/ IZR (Zpower_pos 2 44))%R. simpl. lra. }
+  apply Rabs_le_inv in E.
+  assert (Lo : (IZR k <= RN x)%R).
+  { apply round_ge_generic; [apply FLT_exp_valid; reflexivity | apply valid_rnd_N | apply fmt_IZR; lia | exact X1]. }
+  destruct (fdiv_spec (of_Z us) (of_Z 1000) Fu Fk) as [Fq Vq].
+  - rewrite Vk. lra.
+  - rewrite Vu, Vk. fold x. rewrite Rabs_pos_eq by lra.
+    eapply Rlt_trans; [|apply (bpow_lt radix2 10 64); lia]. change (bpow radix2 10) with 1024%R. lra.
+  - rewrite Vu, Vk in Vq. fold x in Vq.
+    rewrite (int_of_float_spec _ Fq), Vq. f_equal.
+    rewrite Ztrunc_floor by lra. apply Zfloor_imp. rewrite plus_IZR. simpl. lra.
+Qed.
 
 (* models.py:  int(ts.microsecond / 1000) * 1000  is the field floored to the millisecond *)
 Theorem ms_floor_float_exact : forall us, 0 <= us < 1000000 ->
